@@ -247,6 +247,48 @@ pub fn gn() -> Group {
     Group { name: "GN", describe: "GN: full product bps{8,12} x atoms{33 (full-scale alternating stretch in a quiet block),4,11,27,24,30} x max_parameter{14,13,9,8,7,6,3,0} x order_sel{BitCount,AE16} x (use_fixed,use_lpc)(3) x {mono, stereo, inverted stereo} x block sizes{192,256,4096}".to_string(), cases }
 }
 
+/// GW: blocks that open with a few samples near the extremes and are quiet afterwards (atoms 34 / 35): the
+/// block maximum lies in the warm-up positions of the predictor. Widths x LPC order x precision x window x
+/// {mono, inverted stereo} x block sizes, LPC as the only predictor and together with the fixed ones.
+pub fn gw() -> Group {
+    let mut cases = Vec::new();
+    let base = base_case(2);
+    for &bps in &[16u8, 20, 24] {
+        for &a in &[34u8, 35] {
+            for &lo in universe::LPC_ORDERS.iter() {
+                for &pr in universe::PRECISIONS.iter() {
+                    for &w in &[universe::WINDOWS[0], universe::WINDOWS[3]] {
+                        for &(ch, rel) in &[(1u8, 0u8), (2, 2)] {
+                            for &bs in &[64u32, 192, 4096] {
+                                for use_fixed in [false, true] {
+                                    if bs == 4096 && (use_fixed || ch == 2) {
+                                        continue;
+                                    }
+                                    let mut c = base.clone();
+                                    c.input.bps = bps;
+                                    c.input.atoms = [a, a, a, a];
+                                    c.cfg.lpc_order = lo;
+                                    c.cfg.precision = pr;
+                                    c.cfg.window = w;
+                                    c.cfg.use_fixed = use_fixed;
+                                    c.cfg.use_lpc = true;
+                                    c.input.ch = ch;
+                                    c.input.rel = rel;
+                                    c.input.bs = bs;
+                                    c.input.full = if bs == 4096 { 1 } else { 2 };
+                                    c.input.tail = if bs == 4096 { 0 } else { 33 };
+                                    cases.push(c);
+                                }
+                            }
+                        }
+                    }
+                }
+            }
+        }
+    }
+    Group { name: "GW", describe: "GW: full product bps{16,20,24} x atoms{34,35 (8 / 3 samples near the extremes at the start of every block, quiet afterwards)} x lpc_order(6) x precision(5) x window{Rectangle, Tukey 0.4} x {mono, inverted stereo} x block sizes{64,192,4096} x use_fixed(2), LPC enabled".to_string(), cases }
+}
+
 /// Runs `f` on every case of U_d plus the given dense groups (or on the single replay case).
 pub fn drive<F>(args: &Args, rep: &Arc<Report>, d: usize, restrict_large: bool, groups: Vec<Group>, f: F)
 where
